@@ -703,3 +703,124 @@ def inline_adjacent_single_use(fn: ast.FunctionDef) -> bool:
     if changed:
         ast.fix_missing_locations(fn)
     return changed
+
+
+# ---------------------------------------------------------------------------------------------------- webs of a re-used local
+def _stmt_blocks(st: ast.stmt) -> list:
+    out = []
+    for fld in ("body", "orelse", "finalbody"):
+        b = getattr(st, fld, None)
+        if isinstance(b, list) and b and isinstance(b[0], ast.stmt):
+            out.append(b)
+    for h in getattr(st, "handlers", []) or []:
+        out.append(h.body)
+    for c in getattr(st, "cases", []) or []:
+        out.append(c.body)
+    return out
+
+
+def split_webs(fn: ast.FunctionDef) -> int:
+    """A local that is re-used for unrelated values -- every binding a plain ``name = value`` statement, every read in the
+    statements that follow a binding in the same block and come before the next one -- is one local per binding (``box = ...``
+    in two loops becomes ``box`` and ``box__w2``).  Nothing is moved; only names change, and each of the new locals has a single
+    definition.  Returns the number of locals that were split."""
+    if not isinstance(fn, (ast.FunctionDef, ast.AsyncFunctionDef)):
+        return 0
+    params = {a.arg for a in fn.args.posonlyargs + fn.args.args + fn.args.kwonlyargs}
+    if fn.args.vararg:
+        params.add(fn.args.vararg.arg)
+    if fn.args.kwarg:
+        params.add(fn.args.kwarg.arg)
+    banned = set(params)
+    plain: dict = {}           # name -> number of plain bindings
+    for n in ast.walk(fn):
+        if isinstance(n, (ast.Global, ast.Nonlocal)):
+            banned.update(n.names)
+        elif isinstance(n, (ast.FunctionDef, ast.AsyncFunctionDef, ast.Lambda, ast.ClassDef)) and n is not fn:
+            for x in ast.walk(n):
+                if isinstance(x, ast.Name):
+                    banned.add(x.id)         # captured (or shadowed) by an inner scope
+            if not isinstance(n, ast.Lambda):
+                banned.add(n.name)
+        elif isinstance(n, (ast.Import, ast.ImportFrom)):
+            for a in n.names:
+                banned.add((a.asname or a.name).split(".")[0])
+        elif isinstance(n, ast.ExceptHandler) and n.name:
+            banned.add(n.name)
+        elif isinstance(n, (ast.MatchAs, ast.MatchStar)) and getattr(n, "name", None):
+            banned.add(n.name)
+        elif isinstance(n, ast.MatchMapping) and n.rest:
+            banned.add(n.rest)
+
+    def plain_binding(st):
+        if isinstance(st, ast.Assign) and len(st.targets) == 1 and isinstance(st.targets[0], ast.Name):
+            return st.targets[0].id
+        if isinstance(st, ast.AnnAssign) and st.value is not None and isinstance(st.target, ast.Name):
+            return st.target.id
+        return None
+    plain_targets = set()
+    for n in ast.walk(fn):
+        if isinstance(n, ast.stmt):
+            nm = plain_binding(n)
+            if nm is not None:
+                plain[nm] = plain.get(nm, 0) + 1
+                plain_targets.add(id(n.targets[0] if isinstance(n, ast.Assign) else n.target))
+    for n in ast.walk(fn):
+        if isinstance(n, ast.Name) and isinstance(n.ctx, (ast.Store, ast.Del)) and id(n) not in plain_targets:
+            banned.add(n.id)                 # bound by a loop, a tuple assignment, with, a comprehension, ...
+        elif isinstance(n, ast.AnnAssign) and n.value is None and isinstance(n.target, ast.Name):
+            banned.add(n.target.id)
+    names = [nm for nm, k in plain.items() if k >= 2 and nm not in banned]
+    if not names:
+        return 0
+
+    def loads(node, nm):
+        return [x for x in ast.walk(node) if isinstance(x, ast.Name) and x.id == nm and isinstance(x.ctx, ast.Load)]
+
+    def value_of(st):
+        return st.value
+
+    done = 0
+    for nm in names:
+        sites = []              # (block, index)
+
+        def scan(block):
+            for i, st in enumerate(block):
+                if isinstance(st, (ast.FunctionDef, ast.AsyncFunctionDef, ast.ClassDef)):
+                    continue
+                if plain_binding(st) == nm:
+                    sites.append((block, i))
+                for b in _stmt_blocks(st):
+                    scan(b)
+        scan(fn.body)
+        total = len(loads(fn, nm))
+        covered = 0
+        plan = []
+        ok = True
+        for block, i in sites:
+            j = i + 1
+            while j < len(block) and plain_binding(block[j]) != nm:
+                j += 1
+            region = block[i + 1:j]
+            if any(plain_binding(x) == nm for st in region for x in ast.walk(st) if isinstance(x, ast.stmt)):
+                ok = False              # re-bound conditionally / in a loop inside the region
+                break
+            n = sum(len(loads(st, nm)) for st in region) + (len(loads(value_of(block[j]), nm)) if j < len(block) else 0)
+            covered += n
+            plan.append((block, i, j))
+        if not ok or covered != total:
+            continue
+        for k, (block, i, j) in enumerate(plan):
+            if k == 0:
+                continue
+            new = f"{nm}__w{k + 1}"
+            tgt = block[i].targets[0] if isinstance(block[i], ast.Assign) else block[i].target
+            tgt.id = new
+            for st in block[i + 1:j]:
+                for x in loads(st, nm):
+                    x.id = new
+            if j < len(block):
+                for x in loads(value_of(block[j]), nm):
+                    x.id = new
+        done += 1
+    return done
